@@ -88,8 +88,9 @@ class ServerCapabilities(McpPydanticBase):
     tools: Optional[ToolsCapability] = None
     """Present if the server offers any tools to call."""
 
-    completion: Optional[CompletionCapability] = None
-    """Present if the server supports argument completion."""
+    completion: Optional[CompletionCapability] = Field(None, alias="completions")
+    """Present if the server supports argument completion (the member is called
+    "completions" on the wire)."""
 
     model_config = {"extra": "allow"}
 
